@@ -59,9 +59,13 @@ class C02(DocCheck):
         r, err = tex.run(src, ml=True, lang=case['main'], modify_parms=mod)
         (t1, p1), err1 = tex.run(src, lang=case['main'])
         cnt = {'ml_language_documents': 1}
+        skip1 = set()
+        for m in re.finditer(r'(\w)-\1-\1', t1):
+            skip1.update(range(m.start(), m.end()))
         have = set(zip(t1, p1))
-        left = collections.Counter(zip(t1, p1))
-        holders = '|'.join(re.escape(x) for x in sorted({y for v in CHANGE.values() for y in v}))
+        left = collections.Counter((c, q) for k, (c, q) in enumerate(zip(t1, p1)) if k not in skip1)
+        # placeholders (language changes, inline formulas: generated text, rotation differs between the two modes)
+        holders = r'(\w)-\1-\1'
         detail = dict(src=src, parts={lg: [[p[0], list(p[1])] for p in r[lg]] for lg in r}, single=[t1, list(p1)], T=T)
         nws = 0
         for lg in r:
